@@ -431,3 +431,72 @@ Proof.
   destruct HQ2 as (_ & _ & _ & _ & Hout). rewrite Hout, <- Ho2, app_nil_r, rev_append_rev, app_nil_r. reflexivity.
 Qed.
 End MszipExtract.
+
+(* ---------- the same for Quantum folders (the block reader appends the trailer byte 0xFF to every block: pays) ---------- *)
+Section QtmExtract.
+Variable file : list N.
+Variable par : params.
+Variable cab : cabinet.
+Hypothesis bufpos : 0 < p_bufsize par.
+
+Theorem qtm_extract fo f pre bs post q1 i1 q2 i2 :
+  nth_error (c_folders cab) (N.to_nat (fi_folder f)) = Some fo -> ctype (fo_comp fo) = cffoldCOMPTYPE_QUANTUM ->
+  10 <= N.land (N.shiftr (fo_comp fo) 8) 31 -> N.land (N.shiftr (fo_comp fo) 8) 31 <= 21 -> prechecks par fo f = true ->
+  file = pre ++ encs bs ++ post -> fo_offset fo = Z.of_N (len pre) -> N.of_nat (length bs) = fo_nblocks fo -> Forall (wf_blk (c_bres cab)) bs ->
+  fi_len f <> 0 ->
+  let q0 := Qtm.qtm_init (N.land (N.shiftr (fo_comp fo) 8) 31) in
+  (if fi_off f =? 0 then (SVal (inr (tt, q0)), {| irest := pays (fo_comp fo) bs ++ pad EofPad2; iout := [] |})
+   else ideal EofPad2 0 (Qtm.decompress (fi_off f) q0) {| irest := pays (fo_comp fo) bs ++ pad EofPad2; iout := [] |}) = (SVal (inr (tt, q1)), i1) ->
+  ideal EofPad2 0 (Qtm.decompress (fi_len f) q1) {| irest := irest i1; iout := [] |} = (SVal (inr (tt, q2)), i2) ->
+  exists st', extract file par cab cs_init f = (MSPACK_ERR_OK, rev (iout i2), st').
+Proof.
+  intros Hfo Hct Hw1 Hw2 Hpre Hfile Hoff Hnb Hwf Hlen q0 Hskip Hext. unfold prechecks in Hpre.
+  apply andb_true_iff in Hpre as [Hpre H4]. apply andb_true_iff in Hpre as [Hpre H3]. apply andb_true_iff in Hpre as [H1 H2].
+  apply N.leb_le in H1, H2. apply negb_true_iff in H3.
+  unfold extract. replace (CAB_LENGTHMAX <? fi_off f) with false by (symmetry; apply N.ltb_ge; exact H1).
+  replace (CAB_LENGTHMAX - fi_off f <? fi_len f) with false by (symmetry; apply N.ltb_ge; exact H2). cbn [andb]. rewrite Hfo, H3.
+  assert (Hmax : negb (p_salvage par) && (((fo_nblocks fo * CAB_BLOCKMAX) mod M32 <? fi_off f) || ((fo_nblocks fo * CAB_BLOCKMAX) mod M32 - fi_off f <? fi_len f)) = false).
+  { destruct (p_salvage par); [reflexivity|]. cbn [orb negb andb] in *. apply andb_true_iff in H4 as [A B]. apply N.leb_le in A, B.
+    replace (_ <? fi_off f) with false by (symmetry; apply N.ltb_ge; exact A). replace (_ <? fi_len f) with false by (symmetry; apply N.ltb_ge; exact B). reflexivity. }
+  rewrite Hmax. cbn [cs_init cs_folder cs_dec cs_host cs_bst negb orb].
+  assert (Hinit : init_decomp (fo_comp fo) = inr (DQtm q0)).
+  { unfold init_decomp. unfold ctype in Hct. rewrite Hct. cbn [N.eqb].
+    replace (10 <=? N.land (N.shiftr (fo_comp fo) 8) 31) with true by (symmetry; apply N.leb_le; exact Hw1).
+    replace (N.land (N.shiftr (fo_comp fo) 8) 31 <=? 21) with true by (symmetry; apply N.leb_le; exact Hw2). reflexivity. }
+  rewrite Hinit. cbn [N.eqb negb cs_dec cs_host cs_bst cs_folder].
+  replace (fi_len f =? 0) with false by (symmetry; apply N.eqb_neq; exact Hlen).
+  set (comp := fo_comp fo) in *. set (S := pays comp bs) in *.
+  assert (Hnl : ctype comp <> cffoldCOMPTYPE_LZX) by (rewrite Hct; discriminate).
+  set (h0 := clear_out (with_writing (mkH (fo_offset fo) true [] 0 0 0 0 false [] 0) false)).
+  set (b0 := {| bbuf := []; bend := false |}).
+  set (i0 := {| irest := S ++ pad EofPad2; iout := [] |}) in *.
+  assert (HQ0 : Q (c_bres cab) comp (fo_nblocks fo) file false [] 0 0 post h0 {| rem := S; out := [] |}).
+  { unfold Q, h0. cbn. repeat split. exists pre, bs. split; [|reflexivity]. unfold at_blocks. cbn. repeat split; try assumption.
+    - intros ->. cbn in Hnb. lia.
+    - intros _. lia. }
+  assert (HR0 : R EofPad2 i0 b0 {| rem := S; out := [] |}) by (unfold R, i0, b0; cbn; repeat split; auto; discriminate).
+  assert (Hs : exists h1 hs1 b1, (if fi_off f - h_off h0 =? 0 then (0, DQtm q0, b0, h0)
+                                  else dec_call file par cab fo (DQtm q0) b0 h0 (fi_off f - h_off h0)) = (0, DQtm q1, b1, h1) /\
+            Q (c_bres cab) comp (fo_nblocks fo) file false [] 0 0 post h1 hs1 /\ R EofPad2 i1 b1 hs1).
+  { change (h_off h0) with 0. rewrite N.sub_0_r. destruct (N.eqb_spec (fi_off f) 0) as [E0|NE].
+    - inversion Hskip; subst. exists h0, {| rem := S; out := [] |}, b0. split; [reflexivity|split; [exact HQ0|exact HR0]].
+    - unfold dec_call.
+      pose proof (cab_buffered_ideal_rel par (c_bres cab) comp (fo_nblocks fo) file Hnl (Qtm.decompress (fi_off f) q0) (bufsize_even par) EofPad2
+                    false [] 0 0 post i0 b0 h0 _ (bufsize_even_pos par bufpos) HQ0 HR0) as P.
+      fold comp. destruct (Cab.cexec file par (c_bres cab) comp (fo_nblocks fo) h0 (buffered (bufsize_even par) EofPad2 (Qtm.decompress (fi_off f) q0) b0)) as [[r2 b1] h1].
+      rewrite Hskip in P. destruct P as (<- & hs1 & HQ1 & _ & HR1). exists h1, hs1, b1. split; [reflexivity|split; [exact HQ1|exact (HR1 _ eq_refl)]]. }
+  destruct Hs as (h1 & hs1 & b1 & E1 & HQ1 & HR1). rewrite E1. cbn [N.eqb negb].
+  assert (HQ1' : Q (c_bres cab) comp (fo_nblocks fo) file true [] (h_off h1) 0 post (with_writing h1 true) {| rem := rem hs1; out := [] |}).
+  { destruct HQ1 as ((pre1 & bs1 & Hat & Hrem) & Hw & Hh & Ho & Hout). unfold Q, with_writing.
+    cbn [h_off h_writing h_hint h_out h_ibuf h_pos h_block h_open rem out]. split; [|split; [reflexivity|split; [exact Hh|split; [cbn; lia|rewrite Hout; reflexivity]]]].
+    exists pre1, bs1. split; [|exact Hrem]. destruct Hat as (A & B & C & D & E). unfold at_blocks. cbn [h_pos h_block]. repeat split; assumption. }
+  assert (HR1' : R EofPad2 {| irest := irest i1; iout := [] |} b1 {| rem := rem hs1; out := [] |}).
+  { destruct HR1 as (A & B & C & D). unfold R. cbn. repeat split; assumption. }
+  unfold dec_call.
+  pose proof (cab_buffered_ideal_rel par (c_bres cab) comp (fo_nblocks fo) file Hnl (Qtm.decompress (fi_len f) q1) (bufsize_even par) EofPad2
+                true [] (h_off h1) 0 post _ b1 (with_writing h1 true) _ (bufsize_even_pos par bufpos) HQ1' HR1') as P.
+  fold comp. destruct (Cab.cexec file par (c_bres cab) comp (fo_nblocks fo) (with_writing h1 true) (buffered (bufsize_even par) EofPad2 (Qtm.decompress (fi_len f) q1) b1)) as [[r2 b2] h2].
+  rewrite Hext in P. destruct P as (<- & hs2 & HQ2 & Ho2 & _). cbn [N.eqb negb]. eexists. f_equal. f_equal.
+  destruct HQ2 as (_ & _ & _ & _ & Hout). rewrite Hout, <- Ho2, app_nil_r, rev_append_rev, app_nil_r. reflexivity.
+Qed.
+End QtmExtract.
